@@ -888,7 +888,12 @@ impl<'a> Model<'a> {
                 if self.match_request(&p.packet, tr, None).is_some() {
                     self.bad("C07", format!("C07/id-reuse/{what}"), format!("transport {tr}: new {what} was given packet id {pid} which is still in flight"));
                 } else {
-                    self.bad("C17", format!("C17/retransmission-differs/{what}"), format!("transport {tr}: retransmission of {what} id {pid} differs from its first transmission beyond the DUP bit:\n first={:02x?}\n now  ={:02x?}", f.first_tx.as_ref().unwrap(), bytes));
+                    let detail = format!("transport {tr}: retransmission of {what} id {pid} differs from its first transmission beyond the DUP bit:\n first={:02x?}\n now  ={:02x?}", f.first_tx.as_ref().unwrap(), bytes);
+                    self.bad("C17", format!("C17/retransmission-differs/{what}"), detail.clone());
+                    // the same event under the other properties it breaks: replays are byte-identical
+                    // (C02/C03) and every outbound packet decodes to what was requested (C09)
+                    self.bad(prop, format!("{prop}/retransmission-differs/{what}"), detail.clone());
+                    self.bad("C09", format!("C09/retransmission-content/{what}"), detail);
                 }
                 return;
             }
